@@ -50,24 +50,37 @@ def run(tier):
                 Model.enqueue_event, Model.delete_agents, Model.configure_agents, Model.create_agent, Model.agent)
     jobs, meta = [], []
 
-    def add(h, e, first=-1, second=-1, estep=-1):
+    def add(h, e, first=-1, second=-1, estep=-1, wmax=0, smax=2, dmax=2, initial=2):
         jobs.append(("_routing", tmo, {"C11_HLEN": str(h), "C11_ELEN": str(e), "C11_FIRST": str(first),
-                                       "C11_SECOND": str(second), "C11_ESTEP": str(estep)}))
+                                       "C11_SECOND": str(second), "C11_ESTEP": str(estep), "C11_WMAX": str(wmax),
+                                       "C11_SMAX": str(smax), "C11_DMAX": str(dmax), "C11_INITIAL": str(initial)}))
         meta.append(("routing", h, e, first))
     if tier == "quick":
         tmo = 240
-        add(0, 1), add(1, 1), add(2, 1), add(0, 2), add(1, 2, 0), add(1, 2, 1)
-        for st in range(3):
-            add(1, 2, 2, estep=st)
+        add(0, 1), add(1, 1)
+        for st in range(2):
+            add(0, 2, estep=st, smax=1, dmax=1)
+            for f in range(3):
+                add(1, 2, f, estep=st, smax=1, dmax=1, initial=1)
+        # population changes BETWEEN steps (before steps 0..2), interleaved with the sends
+        for f in range(3):
+            add(1, 1, f, wmax=2)
+        for f in (0, 1):
+            for g in (0, 1):
+                for st in range(3):
+                    add(2, 1, f, g, estep=st, wmax=2, dmax=1)
     else:
         tmo = 2400
         add(0, 1), add(1, 1), add(2, 1), add(0, 2), add(0, 3, estep=0), add(0, 3, estep=1), add(0, 3, estep=2)
         for f in range(3):
             add(1, 2, f)
+            add(2, 1, f)
+            add(1, 1, f, wmax=2)
             for g in range(3):
-                add(3, 1, f, g)
+                add(3, 1, f, g, initial=1)
                 for st in range(3):
-                    add(2, 2, f, g, st)
+                    add(2, 1, f, g, estep=st, wmax=2)
+                    add(2, 2, f, g, st, initial=1)
     jobs.append(("_routing_twin", 60, {"C11_HLEN": "1", "C11_ELEN": "1", "C11_FIRST": "-1"}))
     meta.append(("twin", 1, 1, -1))
     jobs.append(("_routing", 120, {"C11_HLEN": "2", "C11_ELEN": "1", "C11_FIRST": "-1"}))
@@ -91,9 +104,9 @@ def run(tier):
         if r.verdict == chx.VERDICT_CONFIRMED:
             confirmed += 1
         elif r.verdict == chx.VERDICT_CEX and r.args:
-            names = ["h0", "a0", "h1", "a1", "h2", "a2", "s0", "r0", "d0", "s1", "r1", "d1", "s2", "r2", "d2"]
+            names = ["h0", "a0", "h1", "a1", "h2", "a2", "s0", "r0", "d0", "s1", "r1", "d1", "s2", "r2", "d2", "w0", "w1", "w2"]
             vals = [r.args.get(nm, r.args.get("_pos%d" % i)) for i, nm in enumerate(names)]
-            hist = [(vals[0], vals[1]), (vals[2], vals[3]), (vals[4], vals[5])][:h]
+            hist = [(vals[0], vals[1], vals[15] or 0), (vals[2], vals[3], vals[16] or 0), (vals[4], vals[5], vals[17] or 0)][:h]
             sends = [(vals[6], vals[7], vals[8]), (vals[9], vals[10], vals[11]), (vals[12], vals[13], vals[14])][:e]
             why = H.run_script([tuple(x) for x in hist], [tuple(x) for x in sends])
             rep.candidate(_sig(why), {"hist": [list(x) for x in hist], "sends": [list(x) for x in sends]}, "%s: %s" % (label, why))
@@ -104,7 +117,7 @@ def run(tier):
     # part 2: floating point countdown
     from checks import c11_fp
     fp = c11_fp.run_part(rep, tier)
-    rep.assume("history ops: create, delete(id 0..3), configure_agents(2); send script: step 0..2, receiver 0..4, plain or delayed by 0..2 steps; dt = 1; 5 steps run",
+    rep.assume("history ops: create, delete(id 0..3), configure_agents(2), each before step 0 or (slices with wmax=2) before step 0, 1 or 2; send script: step 0..2, receiver 0..4, plain or delayed by 0..2 steps; dt = 1; 5 steps run",
                "events are enqueued between steps (as agents do in act()); liveness of receivers is fixed by the history",
                "CrossHair 0.0.110; only 'Confirmed over all paths' accepted",
                "delay arithmetic: binary64, round-to-nearest-even, delay in (0, 8*dt], dt on the lattice; decided by cvc5 (QF_FPBV) on the AST-derived countdown")
